@@ -8,7 +8,7 @@ for d in seeded/*/; do
   prop=$(echo "$det" | grep -oE "^C[0-9]+ quick" | cut -d' ' -f1)
   if [ -z "$prop" ]; then echo "$id skip ($det)" | cut -c1-120; continue; fi
   git -C /repo apply "/verif/$d/patch.diff" 2>/dev/null || { echo "$id PATCH-DOES-NOT-APPLY"; continue; }
-  out=$(./check $prop --no-evidence 2>&1); code=$?
+  out=$(./check $prop --no-evidence --fail-fast 2>&1); code=$?
   git -C /repo apply -R "/verif/$d/patch.diff"
   n=$(echo "$out" | grep -c "^VIOLATION")
   echo "$id $prop exit=$code violations=$n $(echo "$out" | grep "^VIOLATION" | head -1 | grep -o "obligation=.*" | cut -c1-120)"
